@@ -632,12 +632,12 @@ def class_kf_b(occs):
 
 
 def simple_program(tree):
-    """no catch clause, no label (definition or labelled jump), no named function expression - the class of
-    `capture_free_of_walk_facts` (Props/C07.lean)"""
+    """no label (definition or labelled jump), no named function expression - the class of
+    `capture_free_of_walk_facts` (Props/C07.lean); catch clauses are allowed"""
     ok = [True]
 
     def on(n):
-        if n.kind in ('Catch', 'Label'):
+        if n.kind == 'Label':
             ok[0] = False
         elif n.kind in ('Break', 'Continue', 'FuncExpr') and n.get('identifier') is not None:
             ok[0] = False
@@ -771,8 +771,9 @@ class Check(object):
                 ctx.bump('model:aligned[%s]:%s' % (fl, al))
                 ctx.bump('model:excluded[%s]:%s' % (fl, ex))
                 self.n_impl += 1
-                # (c) the walk facts of simple programs (hypothesis of `capture_free_of_walk_facts`)
-                if is_simple and fl == '1 1 K':
+                # (c) the walk facts of simple programs outside the recorded deviation classes (hypothesis of
+                # `capture_free_of_walk_facts`; with catch clauses the facts fail exactly on KF-07a programs)
+                if is_simple and fl == '1 1 K' and ex.startswith('OK F'):
                     fa = self.drv.ask('facts %s %s' % (fl, line))
                     ctx.bump('model:walk-facts[simple,%s]:%s' % (fl, fa))
                     if fa != 'OK T':
